@@ -463,9 +463,13 @@ def run(ctx):
         # nested class inside a method: search the method body
         cb = hcls.methods.get("_create_bracket_study")
         ctx.require(cb is not None, "R16.4: _create_bracket_study vanished")
-        for x in ast.walk(cb.node):
-            if isinstance(x, ast.Compare) and "_get_bracket_id" in norm(x) and "self._bracket_id" in norm(x) and isinstance(x.ops[0], ast.Eq):
-                ok = True
+        for fn_ in [n for n in ast.walk(cb.node) if isinstance(n, ast.FunctionDef)]:
+            fdefs_ = single_defs(fn_)
+            for x in ast.walk(fn_):
+                if isinstance(x, ast.Compare) and isinstance(x.ops[0], ast.Eq):
+                    rx = norm(resolve(x, fdefs_))
+                    if "_get_bracket_id" in rx and "self._bracket_id" in rx:
+                        ok = True
     ctx.check(ok, "R16.4", hcls.module.relpath + "::HyperbandPruner._create_bracket_study", "bracket-study-filter",
               message="_BracketStudy.get_trials does not filter trials by `_get_bracket_id(self, t) == self._bracket_id`", how="same function used for membership")
 
